@@ -118,7 +118,7 @@ def Field.readS (env : Env) (flex rh tagged : Bool) : Field → DecS Value
     if rh && m.isClientId then tick readNullableLegacyString
     else Shape.readS env flex tagged m sh
 def Shape.readS (env : Env) (flex tagged : Bool) (m : FieldMeta) : Shape → DecS Value
-  | .prim _ o => tick (primFieldReader env m flex (o && (env.nullableTaggedReader || !tagged)))
+  | .prim _ o => tick (primFieldReaderT env m flex o tagged)
   | .primArr _ e a => arrayReaderS flex (tick (primFieldReader env m flex (e || a)))
   | .ent s o => if o then readNullableS (Schema.readS env s) else Schema.readS env s
   | .entArr s _ => arrayReaderS flex (Schema.readS env s)
